@@ -55,11 +55,18 @@ def export_names(_req=None):
     import importlib
     from dateparser.data import language_order
     out = {}
+    from dateparser.utils import normalize_unicode
+    from harness.c05lib import _assignments
     for lang in language_order:
         info = importlib.import_module("dateparser.data.date_translation_data." + lang).info
-        ms = [info.get(k) or [] for k in MKEYS]
-        ws = [info.get(k) or [] for k in WKEYS]
-        if all(ms) and all(ws):
+        _, meanings = _assignments(info, True)
+
+        def single(words):
+            # the statement's "single-meaning" names: listed under exactly one key (default NORMALIZE)
+            return [w for w in words if len(set(meanings.get(normalize_unicode(w.lower()), []))) == 1]
+        ms = [single(info.get(k) or []) for k in MKEYS]
+        ws = [single(info.get(k) or []) for k in WKEYS]
+        if any(ms):
             out[lang] = {"months": ms, "weekdays": ws}
     return out
 
@@ -97,7 +104,7 @@ def run(ctx):
             return [y, m, d, rng.choice([0, 11, 12, 13, 23, rng.randint(0, 23)]), rng.randint(0, 59), rng.randint(0, 59),
                     rng.choice([0, 1, 123456, 999999, 500000, 120])]
 
-        n_en = 25 if ctx.quick() else 500
+        n_en = 80 if ctx.quick() else 500
         for fmt in FORMATS:
             for _ in range(n_en):
                 add(fmt, rand_dt(), en, "en", [])
@@ -106,11 +113,16 @@ def run(ctx):
         for lang, v in sorted(vocab.items()):
             if lang == "en":
                 continue
-            months = range(12) if not ctx.quick() else rng.sample(range(12), 3)
-            names = {"B": [x[0] for x in v["months"]], "b": [x[0] for x in v["months"]], "A": [x[0] for x in v["weekdays"]],
-                     "a": [x[0] for x in v["weekdays"]]}
+            months = range(12) if not ctx.quick() else rng.sample(range(12), 6)
+            names = {"B": [(x or [""])[0] for x in v["months"]], "b": [(x or [""])[0] for x in v["months"]],
+                     "A": [(x or [""])[0] for x in v["weekdays"]], "a": [(x or [""])[0] for x in v["weekdays"]]}
             for mi in months:
-                fmt = rng.choice(named)
+                if not names["B"][mi]:
+                    continue
+                # localized names are always translated to the FULL English names, so only the full-name
+                # directives can be served by the custom-format parser (a %b / %a format falls back to the
+                # heuristic parsers: recorded as an observation in DESIGN.md, outside this check's domain)
+                fmt = rng.choice(named if all(names["A"]) else [f for f in named if "%A" not in f and "%a" not in f]).replace("%b", "%B").replace("%a", "%A")
                 dt = rand_dt()
                 dt[1] = mi + 1
                 dt[2] = min(dt[2], 28)
@@ -122,6 +134,14 @@ def run(ctx):
     results = core.run_cases(ctx, "harness.lib", "call_parse", cases)
     records = []
     for i, (c, r) in enumerate(zip(cases, results)):
+        if c["lang"] != "en":
+            # the statement's last sentence: if the RAW string matches the format (an English reading of a
+            # foreign word such as 'may'), that reading is what must be returned
+            try:
+                raw = datetime.datetime.strptime(c["s"], c["fmt"])
+                c["dt"] = [raw.year if c["fl"]["year"] else c["dt"][0], raw.month, raw.day, raw.hour, raw.minute, raw.second, raw.microsecond]
+            except ValueError:
+                pass
         records.append({"tid": i, "fl": c["fl"], "dt": c["dt"], "pdom": c["pdom"], "pmoy": c["pmoy"], "today0": r["clock0"][:3] + [0, 0, 0, 0],
                         "today1": r["clock1"][:3] + [0, 0, 0, 0], "out": r["out"], "period": r["period"], "exc": r["exc"]})
     tuples, _ = core.validate_traces(ctx, "T_C14", "SPECIFICATION TSpec\nPOSTCONDITION Consumed\nCHECK_DEADLOCK FALSE\n", records, tags=("REJECT", "SKIP"))
